@@ -132,6 +132,8 @@ func (w *simWorld) fsmNegoOp(st *vsFsmModel, op *Op) {
 		return
 	}
 	n := w.negotiate(st)
+	st.negoProbe = true
+	defer func() { st.negoProbe = false }()
 	switch op.Kind {
 	case "negocheck":
 		// ListPeer
